@@ -106,6 +106,100 @@ fn exec_line(case: &Value, engine: &str) -> String {
     r.unwrap_or_else(|_| "panic".to_string())
 }
 
+// ---------------------------------------------------------------------------------------------
+// API histories (the no_std build has one more call, set_jit_exec_memory: it is given fresh
+// memory before every call that may need it - jit_compile, and set_program, which may recycle
+// or drop compiled code).  Programs: P1 / P2 return 1 / 2, P7 the first packet byte, PX is refused.
+// ---------------------------------------------------------------------------------------------
+fn hist_prog(name: &str) -> &'static [u8] {
+    match name {
+        "P1" => &[0xb7, 0, 0, 0, 1, 0, 0, 0, 0x95, 0, 0, 0, 0, 0, 0, 0],
+        "P2" => &[0xb7, 0, 0, 0, 2, 0, 0, 0, 0x95, 0, 0, 0, 0, 0, 0, 0],
+        "P7" => &[0x71, 0x10, 0, 0, 0, 0, 0, 0, 0x95, 0, 0, 0, 0, 0, 0, 0],     // ldxb r0, [r1+0]
+        _ => &[0xff; 8],
+    }
+}
+
+macro_rules! hist_on {
+    ($vm:expr, $calls:expr, $set:expr, $exec:expr, $jit:expr) => {{
+        let mut vm = $vm;
+        let mut out: Vec<String> = Vec::new();
+        for c in $calls {
+            let op = c[0].as_str().unwrap();
+            let r = match op {
+                "set_program" => {
+                    #[cfg(feature = "nostd")]
+                    {
+                        vm.set_jit_exec_memory(exec_memory(64)).ok();
+                    }
+                    match $set(&mut vm, hist_prog(c[1].as_str().unwrap())) { Ok(()) => "ok".to_string(), Err(_) => "err".to_string() }
+                }
+                "jit_compile" => {
+                    #[cfg(feature = "nostd")]
+                    {
+                        vm.set_jit_exec_memory(exec_memory(64)).ok();
+                    }
+                    match vm.jit_compile() { Ok(()) => "ok".to_string(), Err(_) => "err".to_string() }
+                }
+                "exec" => match $exec(&mut vm) { Ok(v) => format!("{v}"), Err(_) => "err".to_string() },
+                _ => match $jit(&mut vm) { Ok(v) => format!("{v}"), Err(_) => "err".to_string() },
+            };
+            out.push(r);
+        }
+        out.join(",")
+    }};
+}
+
+fn hist_line(rec: &Value) -> String {
+    let r = std::panic::catch_unwind(|| {
+        let calls = arr(&rec["calls"]);
+        let pkt = FixedBuf::new(0x0000_1000_0010_0000 - 16, &[0x11u8; 16]).unwrap();
+        match rec["kind"].as_str().unwrap() {
+            "raw" => hist_on!(rbpf::EbpfVmRaw::new(None).unwrap(), &calls,
+                              |v: &mut rbpf::EbpfVmRaw<'static>, p| v.set_program(p),
+                              |v: &mut rbpf::EbpfVmRaw<'static>| v.execute_program(pkt.slice()),
+                              |v: &mut rbpf::EbpfVmRaw<'static>| unsafe { v.execute_program_jit(pkt.slice()) }),
+            _ => hist_on!(rbpf::EbpfVmFixedMbuff::new(None, 0, 8).unwrap(), &calls,
+                          |v: &mut rbpf::EbpfVmFixedMbuff<'static>, p| v.set_program(p, 0, 8),
+                          |v: &mut rbpf::EbpfVmFixedMbuff<'static>| v.execute_program(pkt.slice()),
+                          |v: &mut rbpf::EbpfVmFixedMbuff<'static>| unsafe { v.execute_program_jit(pkt.slice()) }),
+        }
+    });
+    r.unwrap_or_else(|_| "panic".to_string())
+}
+
+/// n x `add64 r0, 1` ; exit compiled into ONE page of caller-supplied memory (no_std build): the
+/// contract is "Ok or Err, never a panic, and if Ok the code computes n".  The std build, which
+/// sizes its own memory, answers the constant; so do the no_std build's conforming answers.
+fn jit_small_line(n: usize) -> String {
+    let r = std::panic::catch_unwind(|| {
+        let mut p: Vec<u8> = vec![0xb7, 0, 0, 0, 0, 0, 0, 0];
+        for _ in 0..n {
+            p.extend_from_slice(&[0x07, 0, 0, 0, 1, 0, 0, 0]);
+        }
+        p.extend_from_slice(&[0x95, 0, 0, 0, 0, 0, 0, 0]);
+        let prog: &'static [u8] = Box::leak(p.into_boxed_slice());
+        let mut vm = rbpf::EbpfVmNoData::new(Some(prog)).unwrap();
+        #[cfg(feature = "nostd")]
+        {
+            let page = unsafe {
+                libc::mmap(std::ptr::null_mut(), 4096, libc::PROT_READ | libc::PROT_WRITE | libc::PROT_EXEC,
+                           libc::MAP_PRIVATE | libc::MAP_ANONYMOUS, -1, 0)
+            };
+            assert!(page != libc::MAP_FAILED);
+            vm.set_jit_exec_memory(unsafe { std::slice::from_raw_parts_mut(page as *mut u8, 4096) }).ok();
+        }
+        match vm.jit_compile() {
+            Err(_) => if cfg!(feature = "nostd") { "contract-ok".to_string() } else { "std build refused to compile".to_string() },
+            Ok(()) => match unsafe { vm.execute_program_jit() } {
+                Ok(v) if v == n as u64 => "contract-ok".to_string(),
+                other => format!("compiled code returned {other:?}, expected {n}"),
+            },
+        }
+    });
+    r.unwrap_or_else(|_| "panic".to_string())
+}
+
 /// One corpus record -> transcript line(s).
 pub fn line_for(rec: &Value) -> Value {
     let out = match rec["t"].as_str().unwrap() {
@@ -118,6 +212,8 @@ pub fn line_for(rec: &Value) -> Value {
         "disasm" => disasm_line(&bytes(&rec["bytes"])),
         "run" => exec_line(&rec["case"], "interp"),
         "jit" => exec_line(&rec["case"], "jit"),
+        "hist" => hist_line(rec),
+        "jit_small" => jit_small_line(rec["insns"].as_u64().unwrap() as usize),
         t => format!("unknown record type {t}"),
     };
     json!({"n": rec["n"], "t": rec["t"], "out": out})
